@@ -157,7 +157,7 @@ func splitOffset(info *types.Info, e ast.Expr) (ast.Expr, int64, bool) {
 // undecided lists comparisons whose constant offsets cannot be normalised to a
 // comparison against zero (the caller should treat them as undecided).
 func (g *Graph) OrdCmps(roleA, roleB Role, shift int64) (cmps []OrdCmp, undecided []ast.Expr) {
-	info := g.Fn.Info()
+	_ = g.Fn.Info()
 	for _, n := range g.Nodes {
 		if n.Kind != KStmt || len(n.Succs) != 2 {
 			continue
@@ -176,8 +176,8 @@ func (g *Graph) OrdCmps(roleA, roleB Role, shift int64) (cmps []OrdCmp, undecide
 			default:
 				return true
 			}
-			xb, xo, _ := splitOffset(info, be.X)
-			yb, yo, _ := splitOffset(info, be.Y)
+			xb, xo, _ := g.splitOffsetResolved(be.X)
+			yb, yo, _ := g.splitOffsetResolved(be.Y)
 			op := be.Op
 			var aOff, bOff int64
 			switch {
@@ -255,6 +255,13 @@ func (g *Graph) NilReturns() []*Node {
 		if tv, ok := info.Types[last]; ok && tv.IsNil() {
 			out = append(out, r)
 			continue
+		}
+		// returning the result of a call: may be nil
+		if call, isCall := ast.Unparen(last).(*ast.CallExpr); isCall && !NonNilErrorExpr(info, last) {
+			if tv, ok := info.Types[call]; ok && tv.Type != nil && isErrorType(tv.Type) {
+				out = append(out, r)
+				continue
+			}
 		}
 		// returning a variable: may be nil
 		if _, isIdent := ast.Unparen(last).(*ast.Ident); isIdent && !NonNilErrorExpr(info, last) {
@@ -602,4 +609,44 @@ func (g *Graph) SingleDefInLoop(obj types.Object) (ast.Expr, int) {
 		return nil, 0
 	}
 	return found, idx
+}
+
+
+// splitOffsetResolved is splitOffset that looks through locals with a single
+// definition:  next := s.GetNonce() + 1; if next > n  is the comparison
+// s.GetNonce()+1 > n.
+func (g *Graph) splitOffsetResolved(e ast.Expr) (ast.Expr, int64, bool) {
+	info := g.Fn.Info()
+	base, off, ok := splitOffset(info, e)
+	for depth := 0; depth < 3; depth++ {
+		id, isID := ast.Unparen(base).(*ast.Ident)
+		if !isID {
+			break
+		}
+		obj := info.Uses[id]
+		if obj == nil {
+			break
+		}
+		if v, isVar := obj.(*types.Var); !isVar || v.IsField() || (v.Parent() != nil && v.Pkg() != nil && v.Parent() == v.Pkg().Scope()) {
+			break
+		}
+		rhs, idx := g.SingleDef(obj)
+		if rhs == nil || idx != 0 {
+			break
+		}
+		if call, isCall := ast.Unparen(rhs).(*ast.CallExpr); isCall {
+			// a call result: keep the identifier unless the call has exactly one result
+			if tv, has := info.Types[call]; has {
+				if _, isTuple := tv.Type.(*types.Tuple); isTuple {
+					break
+				}
+			}
+		}
+		b2, o2, ok2 := splitOffset(info, rhs)
+		if !ok2 {
+			break
+		}
+		base, off = b2, off+o2
+	}
+	return base, off, ok
 }
